@@ -122,3 +122,36 @@ func init() {
 		},
 	})
 }
+
+func init() {
+	register(&propDef{
+		ID: "C08",
+		Explain: "Rules on prefix.(*Handler).Handle anchored on its state (Records, the allocator, the OptIAPD/OptIAPrefix literals), evaluated in every abstract state and per loop iteration: every prefix added to a reply is one of this client's recorded leases or the success result of Allocate (PD.PROVENANCE); the record map is read/written only under recordKey(client id of the inner message) (PD.OWN-KEY); each iteration over the request's IA_PDs adds exactly one response IA_PD carrying the request's IAID, early exits stop the chain (PD.ONE-PER-IAPD); an empty response IA_PD carries NoPrefixAvail (PD.NOPREFIX); preferred = valid = time until expiry and every expiry is now + a constant ≤ 1h (PD.LIFETIME); a known lease is handed back only after the extension diamond on the same element, and the value sent is read after it (PD.FRESH); allocator and records are used inside the critical section (PD.LOCK + GUARDED-BY). Disjointness across clients then rests on C04's allocator rules.",
+		Trusted: trustedBase,
+		Assume:  []string{"in-pool / alignment / size of the allocator's answers (C05/C20)", "lifetimes > 0 after codec rounding"},
+		Run: func(c *Ctx) {
+			rulePrefix(c, "C08.", map[string]bool{"C08": true})
+			for _, r := range []string{"PD.PROVENANCE", "PD.OWN-KEY", "PD.ONE-PER-IAPD", "PD.NOPREFIX", "PD.LIFETIME", "PD.FRESH", "PD.LOCK"} {
+				c.R.Floor("C08."+r, 1)
+			}
+		},
+	})
+	register(&propDef{
+		ID: "C09",
+		Explain: "Rules on prefix.(*Handler).Handle for lease stickiness: the value recorded for the client is built by appends onto a running accumulator seeded with the known leases, so every prefix delegated in a reply is remembered (KEEP.RECORD-ALL, an SSA phi/append shape check); a new block is allocated only in states where satisfied.Test(hint) == false was established (KEEP.REUSE-FIRST); handing back a known lease marks both the hint and the lease in the same iteration (KEEP.MARK); a known lease is reused only under samePrefix(hint, lease) or as a not-yet-given lease for an empty hint (KEEP.EXACT); plus C01's NILPATH/NILSRC on the hint prefix.",
+		Trusted: trustedBase,
+		Assume:  []string{"that a repeated request returns the same prefix *value* (needs run-time content of Records)", "lifetime not shorter than what remained (timing)", "recognition of the hint-less placeholder by the empty-hint filter is a value property (len/Equal of a zero-length IP) that the armed rules do not decide"},
+		Run: func(c *Ctx) {
+			rulePrefix(c, "C09.", map[string]bool{"C09": true})
+			fn := c.P.Func("plugins/prefix", "*Handler", "Handle")
+			sp := c.P.Func("plugins/prefix", "", "samePrefix")
+			if fn != nil {
+				runSafety(c, "C09.", []*ssa.Function{fn}, nil, "NILPATH", "NILSRC")
+			}
+			ruleSamePrefix(c, "C09.KEEP.EXACT", sp)
+			for _, r := range []string{"KEEP.RECORD-ALL", "KEEP.REUSE-FIRST", "KEEP.MARK", "KEEP.EXACT"} {
+				c.R.Floor("C09."+r, 1)
+			}
+		},
+	})
+}
